@@ -48,22 +48,27 @@ def diff_keys(a, b):
 class Check(PropertyCheck):
     prop = "C02"
     design_ref = "§5 C02"
-    level_text = ("Lean theorems about the model of Http1Connection's read side (state = phase x unparsed buffer; head extraction "
-                  "with h11 maybe_extract_lines and the blank-line loop of the fixed read_headers, framing decision as a parameter, "
-                  "ContentLengthReader and Http10Reader body phases, wait until the flow is done, release = mark_done re-dispatch): "
-                  "machine_lawful (feed (a++b) = feed a then feed b, outputs concatenated) for ALL states and byte strings, hence "
-                  "h1_seg_independent for ALL streams and ALL segmentations; wait_buffers + pipelined_in_order (bytes arriving before "
-                  "or after the previous flow is released give the same next request); old_machine_counterexample shows the pre-fix "
-                  "machine violates the law on the F-C02a witness. The real HttpLayer is checked directly with no model in between: "
-                  "for generated exchanges (1-3 pipelined requests, scripted origin responses, addon edits) the outcome of a schedule "
-                  "(segmentation of both streams + interleaving respecting causality) must equal the outcome of whole-stream delivery: "
-                  "flows, hook sequence per flow, reference-parsed messages per connection, closes.")
-    level_note = ("PARTIAL in Lean: the Lawful proof covers heads, Content-Length bodies and read-until-close bodies; the h11 "
-                  "ChunkedReader sub-states are not in the proved machine (chunked framing is covered only by the direct oracle on the "
-                  "real layer), the server-side reader (Http1Client) is the same machine with the response head parser but is not "
-                  "instantiated separately, and the interleaving of the two connections is proved only in the form wait_buffers / "
-                  "pipelined_in_order (client bytes commute with the release of the previous flow). No compiled-model tie for C02 "
-                  "(has_model=False): the functions the machine uses (extractLines, head parsing, framing decision) are tied in C01. "
+    level_text = ("Lean theorems about the model of Http1Connection's read side (state = phase x unparsed buffer): head extraction "
+                  "with h11 maybe_extract_lines and the blank-line loop of the fixed read_headers, framing decision as a parameter "
+                  "(instantiated for requests — requestSize — and for the client side — responseSize, incl. swallowing interim 1xx), "
+                  "ContentLengthReader and Http10Reader body phases, the four sub-states of the h11 ChunkedReader (size line with "
+                  "extensions and trailing OWS per the chunk_header regex, chunk data, the CR LF after the data, last-chunk and trailer "
+                  "section — a non-empty trailer section is the protocol error of fix 4f0e88849), wait until the flow is done, release = "
+                  "mark_done re-dispatch, closed. Proved for ALL states and byte strings: machine_lawful (feed (a++b) = feed a then "
+                  "feed b, outputs concatenated), hence h1_seg_independent for ALL streams and ALL segmentations incl. chunked bodies; "
+                  "wait_buffers + pipelined_in_order (bytes arriving before or after the previous flow is released give the same next "
+                  "request); old_machine_counterexample shows the pre-fix machine violates the law on the F-C02a witness. The real "
+                  "HttpLayer is checked directly with no model in between: for generated exchanges (1-3 pipelined requests, scripted "
+                  "origin responses, addon edits) the outcome of a schedule (segmentation of both streams + interleaving respecting "
+                  "causality) must equal the outcome of whole-stream delivery: flows, hook sequence per flow, reference-parsed messages "
+                  "per connection, client-side close.")
+    level_note = ("PARTIAL: the interleaving of the two connections is proved in the form wait_buffers / pipelined_in_order (client "
+                  "bytes commute with the release of the previous flow), not as one theorem over merged schedules of both streams; "
+                  "on the client side bytes that arrive while no request is outstanding stay buffered in the model, the real code "
+                  "closes the connection (excluded by the causality assumption). The discard of CR LF after chunk data is matched "
+                  "byte by byte in the model (h11 matches as many bytes as are there — same result under the drain loop). No "
+                  "compiled-model tie for C02 (has_model=False): the functions the machine uses (extractLines, head parsing, framing "
+                  "decision) are tied in C01; the chunk_header regex transcription is not tied by a driver. "
                   "Out of scope by design: tunnel payload after CONNECT, request streaming (head forwarded before the body is judged), "
                   "an origin that drops a keep-alive connection without announcing it (races with the next request).")
     technique = "Lean 4 proof (feed_append for the drain loop + generic seg_independent) + schedule-vs-whole oracle on the real layer"
@@ -79,7 +84,7 @@ class Check(PropertyCheck):
                     "mitmproxy.proxy.layers.http._http1:Http1Server.read_headers", "mitmproxy.proxy.layers.http._http1:Http1Server.mark_done",
                     "mitmproxy.proxy.layers.http._http1:Http1Client.read_headers", "mitmproxy.proxy.layers.http._http1:make_body_reader",
                     "mitmproxy.proxy.utils:ReceiveBuffer"]
-    trusted_base = ["h11 ReceiveBuffer / ContentLengthReader / Http10Reader as transcribed in Model/C02.lean; h11 ChunkedReader not modelled",
+    trusted_base = ["h11 ReceiveBuffer / ContentLengthReader / Http10Reader / ChunkedReader as transcribed in Model/C02.lean",
                     "harness/common/world.py as the stand-in for proxy/server.py (validated separately against the asyncio server)",
                     "harness/common/refparsers.py for comparing what the peers receive semantically"]
     parallel = False
